@@ -14,6 +14,7 @@ CONSTANTS
   Defects <- NoDefects
   MaxRm = 2
   QueryOn = FALSE
+  NodeRig = FALSE
   SubW = 1
   MaxOps = 0
   EmitOn = TRUE
